@@ -1,11 +1,17 @@
 """C06 A wrong key is always rejected and yields no plaintext."""
 from .common import combined
 LEVEL = 'other'
-RULES = ('S-GATE', 'S-CMP', 'R05.e', 'R06.a', 'R06.b', 'R06.c', 'R12.a')
+RULES = ('S-GATE', 'S-CMP', 'R05.e', 'R06.a', 'R06.b', 'R06.c', 'R12.a', 'R16.a', 'R16.b', 'R16.e', 'R16.t', 'R07.d', 'R07.e', 'R07.g', 'R07.t')
 
 
 def run(prog, rec, tier):
-    combined(prog, rec, tier, RULES, driver=('reader',), hmac=('scmp', 'structure'),
+    # two key texts that denote different keys must reach the kernel as different 16-byte keys: validator and decoder of the key text
+    from . import b64_rules
+    B = b64_rules.B64Rules(prog, rec)
+    B.tables()
+    B.validator_decoder()
+    B.decoder()
+    combined(prog, rec, tier, RULES, driver=('reader',), hmac=('scmp', 'structure'), hash=('drivers', 'buffer', 'buffer_sim', 'finaliser'), compress=True,
              explanation='Decryption output is control-dependent on verify()==0; the tag compare accepts only when every digest byte '
              'was established equal; all 16 key bytes reach both hash inputs (inner prefix K0^ipad, outer prefix K0^opad, by content); '
              'the cipher streams get the same key object.')
